@@ -14,7 +14,7 @@ from vlib.model import ical_text as M
 
 from checks.c01_parse_roundtrip import fixtures, mutate, TOKENS
 
-from icalendar import Calendar
+from icalendar import Calendar, Event
 
 ID = "C04"
 TECHNIQUE = "fuzzing by generation and mutation (iCalendar token soup, heavily mutated fixtures, structured hostile TZID / VTIMEZONE inputs; atheris coverage-guided bytes in the thorough tier) with a crash/termination oracle bucketed by (exception type, innermost frame), plus a metamorphic/differential isolation oracle for VEVENT"
@@ -221,6 +221,26 @@ def judge_isolate(case):
                 pass
             except Exception as e:  # noqa: BLE001
                 fails.append(Failure("C04.total", "parse-raises/" + exc_signature(e), f"line in VALARM: {line!r}: {e!r}"[:400]))
+            # every other place that is not inside a lenient component: directly in the VCALENDAR after the event has been
+            # closed, and at the top level before / after an outermost component (a bare VEVENT included)
+            if not re.match(r"(?i)x-comment", line):
+                full = assemble(K_EVENT, wrap=wrap).decode("utf-8").split("\r\n")[:-1]
+                wrapped = ["BEGIN:X-WRAP"] * wrap + K_EVENT + ["END:X-WRAP"] * wrap
+                places = {"in-VCALENDAR-after-the-event": (K_HEAD + wrapped + [line] + K_TODO + K_TAIL, Calendar, False),
+                          "after-END-VCALENDAR": (full + [line], Calendar, False),
+                          "before-BEGIN-VCALENDAR": ([line] + full, Calendar, False),
+                          "after-outermost-VEVENT": (K_EVENT + [line], Event, False),
+                          "after-outermost-VEVENT-multiple": (K_EVENT + [line] + K_TODO, Calendar, True),
+                          "between-outermost-components": (K_TODO + [line] + K_EVENT, Calendar, True)}
+                for place, (lines, cls, multiple) in places.items():
+                    sut.reset(provider)
+                    try:
+                        cls.from_ical(("\r\n".join(lines) + "\r\n").encode("utf-8", "replace"), multiple=multiple)
+                        fails.append(Failure("C04.isolate", "unparsable-line-accepted-outside-lenient-component/" + place, f"{line!r}"))
+                    except ValueError:
+                        pass
+                    except Exception as e:  # noqa: BLE001
+                        fails.append(Failure("C04.total", "parse-raises/" + exc_signature(e), f"line {place}: {line!r}: {e!r}"[:400]))
         else:
             if ev.errors or any(c.errors for c in others):
                 fails.append(Failure("C04.isolate", "parsable-line-recorded-as-error", f"{line!r}: {ev.errors!r}"[:300]))
